@@ -245,6 +245,16 @@ class Tr:
             kind = self.scalar_kind(f.sub_fields[0], what + "{}")
         else:
             self.die(f"{what}: shape {f.shape}")
+        if f.shape == pf.SHAPE_DICT:
+            # Parse.v: a dict-valued field takes an object and nothing else (pydantic alone would run dict()
+            # over the value and turn a list of pairs, or of two-character strings, into an object)
+            for probe in ([["A", "b"]], ["Ab", "Cd"], [], "", (("A", "b"),)):
+                try:
+                    val, err = f.validate(probe, {}, loc=f.alias, cls=cls)
+                except Exception as e:  # noqa: BLE001
+                    self.die(f"{what}: probing with {probe!r} raised {type(e).__name__}: {e}")
+                if not err:
+                    self.die(f"{what}: {probe!r} is accepted for a dict-valued field and becomes {val!r} (the model accepts objects only)")
         if "KInt false" in kind:
             # Parse.v: a non-strict int takes a whole number in any spelling and rejects one with a fractional
             # part (pydantic alone would truncate it).  Probed on the live field, pre-validators included.
